@@ -26,9 +26,9 @@ func TestGovcReplayNewFileErrorLeaksBytes(t *testing.T) {
 		t.Fatal("expected the base pool error")
 	}
 	if got := fp.filesRemaining.remaining.Load(); got != 10 {
-		t.Fatalf("file quota leaked: %d of 10 remaining after a failed NewFile", got)
+		t.Fatalf("GOVC-REPLAY-VIOLATION: file quota leaked: %d of 10 remaining after a failed NewFile", got)
 	}
 	if got := fp.bytesRemaining.remaining.Load(); got != 1000 {
-		t.Fatalf("byte quota leaked: %d of 1000 remaining after a failed NewFile", got)
+		t.Fatalf("GOVC-REPLAY-VIOLATION: byte quota leaked: %d of 1000 remaining after a failed NewFile", got)
 	}
 }
